@@ -41,15 +41,20 @@ CRASH_RULE = ("cases = generated API histories (as for C01..C12); the parent run
               "the new state once the call had returned) and the follow-up commit must yield the reference root.")
 
 
-def CRASH(mode, focus, q, t, steps=2, shards_q=4, big=False, nops=8, segsize=0):
-    args = ["--mode", mode, "--focus", focus, "--nops", str(nops), "--steps", str(steps)] + (["--big"] if big else []) + (["--segsize", str(segsize)] if segsize else [])
+NOMT_MODEL = "/verif/lean/.lake/build/bin/nomt_model"
+
+
+def CRASH(mode, focus, q, t, steps=2, shards_q=4, big=False, nops=8, segsize=0, wal=False):
+    # wal=True: every crashed directory that holds a redo log is also recovered on a copy by the real bitbox `DB::open` and the result
+    # compared with the Lean WAL reader + redo (`walredo`, Store/Wal*.lean) applied to the crashed hash table
+    args = ["--mode", mode, "--focus", focus, "--nops", str(nops), "--steps", str(steps)] + (["--big"] if big else []) + (["--segsize", str(segsize)] if segsize else []) + (["--wal-driver", NOMT_MODEL] if wal else [])
     return {"cmd": "crash", "mode": "image", "args": args, "cases": {"quick": max(1, q // shards_q), "thorough": max(1, t // 16)}, "shards": {"quick": shards_q, "thorough": 16}, "per_shard_cases": True}
 
 # directed histories (corpus, fixed seed): 8 KiB rollback segments, six fat commits (one segment each), then rollback(5) / prune + rollback-all,
 # every event of every operation; "nested" additionally crashes at every event of every recovery, each probe on a fresh copy of the crashed image (found F16)
 def SCRIPTED(mode):
     foci = ["script-rollback-multi-segment"] if mode == "nested" else ["script-rollback-multi-segment", "script-prune-then-rollback-all", "script-elision-threshold"]
-    return [dict(CRASH(mode, f, 1, 1, steps=12, shards_q=1, segsize=8192), fixed_seed=1, corpus=True, shards={"quick": 1, "thorough": 1}, cases={"quick": 1, "thorough": 1}) for f in foci]
+    return [dict(CRASH(mode, f, 1, 1, steps=12, shards_q=1, segsize=8192, wal=(f == "script-elision-threshold")), fixed_seed=1, corpus=True, shards={"quick": 1, "thorough": 1}, cases={"quick": 1, "thorough": 1}) for f in foci]
 
 # the real FreeList (allocate per index + finish) and the real ProbeSequence / allocate_bucket, driven through nomt::verif_api,
 # against the Lean free-list / probing models (driver mode `alloc`) and harness-side oracles (conservation, placement, encoding)
@@ -79,6 +84,13 @@ CRASH_IMAGES_RULE = (" Crash images: the crash / power-loss enumeration of C03 /
                      "page-elision threshold) hands every directory that recovered to a state the API reports consistently to the same monitor (`check <dir> <expected>`), so that the image after WAL "
                      "replay / rollback-log trimming + one more commit is decoded too (counters recovered_images_checked / _ok in the evidence).")
 
+# the real WalBlobBuilder / WalBlobReader / PageDiff / bitbox recovery (hook H5) against the Lean WAL model (driver mode `wal`)
+WAL_RUN = {"cmd": "wal", "mode": "wal", "cases": {"quick": 600, "thorough": 16000}, "shards": {"quick": 4, "thorough": 16}}
+WAL_RULE = (" WAL runs: generated entry sequences (0..many entries, clears and updates mixed, diffs with 0 / 1 / 126 changed slots and bits at the word boundary 63 / 64, bucket indices and "
+            "sequence numbers at the u64 / u32 limits, the END tag aimed at page boundaries, builder reuse, small mappings that must grow) through the REAL WalBlobBuilder — bytes compared byte for "
+            "byte with the Lean encoder — and the REAL WalBlobReader — entries / error verdict compared with the Lean reader — plus 12 malformed kinds (truncated, bad tag, padding bits set, empty, "
+            "garbage after END); PageDiff operations (set / join / pack / unpack / from_bytes); `recover`: the real bitbox DB::open on generated hash-table files and WALs (incl. partial write-outs, stale "
+            "and corrupt logs) vs the Lean redo. Oracles: decode(encode x) = x on the real code, blob length a page multiple, redo reproduces the intended page, redo twice = once.")
 IMG_RUN = {"cmd": "image", "mode": "image", "cases": {"quick": 24, "thorough": 400}, "shards": {"quick": 8, "thorough": 16}}
 # directed replay (corpus): history 18 of image seed 1000 — 1616 fat-valued keys, half of them under a 200-bit common prefix;
 # the commit that splits the branch node writes a separator whose last bit is lost (see KNOWN finding candidate F13 in the report)
@@ -126,8 +138,8 @@ PROPS = {
         "runs": IMG_CORPUS + [{"cmd": "image-prefix-shrink", "mode": "image", "cases": {"quick": 1, "thorough": 1}, "corpus": True},
                               {"cmd": "image-prefix-tail", "mode": "image", "cases": {"quick": 1, "thorough": 1}, "corpus": True},
                               {"cmd": "image-script", "mode": "image", "args": ["--focus", "script-freelist-reopen"], "cases": {"quick": 1, "thorough": 1}, "corpus": True},
-                              {"cmd": "image-branch-ops", "mode": "image", "cases": {"quick": 8, "thorough": 160}, "shards": {"quick": 8, "thorough": 16}}, dict(IMG_RUN)] + CRASH_IMAGES,
-        "rule": IMG_RULE + CRASH_IMAGES_RULE,
+                              {"cmd": "image-branch-ops", "mode": "image", "cases": {"quick": 8, "thorough": 160}, "shards": {"quick": 8, "thorough": 16}}, dict(IMG_RUN), dict(WAL_RUN)] + CRASH_IMAGES,
+        "rule": IMG_RULE + CRASH_IMAGES_RULE + WAL_RULE,
         "trusted_base": IMG_TB, "assumptions": IMG_ASSUME,
     },
     "C19": {
@@ -216,13 +228,13 @@ PROPS = {
     # ---------------- crash / power-loss / fault enumeration (harness/src/crash.rs + cfg(nomt_verif) I/O hook) ----------------
     "C03": {
         "exclude_tags": ["C04", "C17"],
-        "runs": [CRASH("crash", "general", 6, 60, steps=2, shards_q=6), CRASH("crash", "rollback", 3, 30, steps=2, shards_q=3), CRASH("crash", "rollback", 3, 30, steps=2, shards_q=3, nops=12, segsize=8192),
+        "runs": [dict(WAL_RUN), CRASH("crash", "general", 6, 60, steps=2, shards_q=6, wal=True), CRASH("crash", "rollback", 3, 30, steps=2, shards_q=3), CRASH("crash", "rollback", 3, 30, steps=2, shards_q=3, nops=12, segsize=8192),
                  CRASH("nested", "general", 2, 20, steps=1, shards_q=2), CRASH("crash", "kv", 2, 20, steps=1, shards_q=2, big=True)] + SCRIPTED("nested") + SCRIPTED("crash"),
-        "rule": CRASH_RULE + " C03: process crash (every issued effect stays) at EVERY event index of the chosen operations (session commits, overlay commits, rollbacks), plus nested crashes at every event of the recovery itself (each probe on a fresh copy of the crashed directory), and two directed multi-segment rollback histories with 8 KiB rollback segments. distinct & non-trivial = distinct (operation, event index strictly inside the operation, variant) triples.",
+        "rule": CRASH_RULE + WAL_RULE + " C03: process crash (every issued effect stays) at EVERY event index of the chosen operations (session commits, overlay commits, rollbacks), plus nested crashes at every event of the recovery itself (each probe on a fresh copy of the crashed directory), and two directed multi-segment rollback histories with 8 KiB rollback segments. distinct & non-trivial = distinct (operation, event index strictly inside the operation, variant) triples.",
         "trusted_base": DISK_TB, "assumptions": DISK_ASSUME,
     },
     "C04": {
-        "runs": [CRASH("power", "general", 4, 40, steps=2, shards_q=4), CRASH("power", "rollback", 2, 20, steps=2, shards_q=2), CRASH("power", "rollback", 4, 40, steps=3, shards_q=4, nops=12, segsize=8192), CRASH("power", "kv", 2, 20, steps=1, shards_q=2, big=True),
+        "runs": [CRASH("power", "general", 4, 40, steps=2, shards_q=4, wal=True), CRASH("power", "rollback", 2, 20, steps=2, shards_q=2), CRASH("power", "rollback", 4, 40, steps=3, shards_q=4, nops=12, segsize=8192), CRASH("power", "kv", 2, 20, steps=1, shards_q=2, big=True),
                  CRASH("nested-power", "general", 4, 40, steps=1, shards_q=4), CRASH("nested-power", "rollback", 2, 20, steps=1, shards_q=2, nops=12, segsize=8192)] + SCRIPTED("power") + ORDER_RUNS,
         "rule": CRASH_RULE + ORDER_RULE + " C04: at every event index the child reverts un-fsynced effects before dying: all of them, a seeded random half, and each single one (all single-loss subsets when <= 6 are pending, else a rotating single loss / single survivor); an effect counts as synced only if it COMPLETED before an fsync of its file was ISSUED and that fsync completed. Creates / unlinks of one directory are lost as a suffix in issue order (ordered metadata journal), data pages as arbitrary subsets. nested-power: a process crash at every event, then a power loss (all / a random half of the recovery's own un-fsynced effects) at every event of the recovery (found F17).",
         "trusted_base": DISK_TB, "assumptions": DISK_ASSUME + ["4 KiB page atomicity; tmpfs stands in for the device and the hook's journal for the page cache", "ordered metadata journal: creates / unlinks of one directory reach the disk in issue order (a suffix of the un-synced ones is lost), as on ext4 / xfs / btrfs / apfs"],
